@@ -35,7 +35,7 @@ for d in sorted(glob.glob(f'{V}/seeded/*/')):
         meta['summary'] = open(fs).read().strip() if os.path.exists(fs) else 'fix: bessel_j2 for tiny non-zero arguments'
     else:
         meta['origin'] = 'written by the builder while testing a check'
-        meta['property'] = 'C11' if 'c11' in name else 'C07'
+        meta['property'] = 'C11' if 'c11' in name else ('C12' if 'c12' in name else 'C07')
         meta['summary'] = NOTES.get(name, {}).get('summary', '')
     res = {c: v for (n, c), v in hist.items() if n == name}
     meta['checks_run'] = {c: {'outcomes_in_order': v, 'caught': v[-1] == 'exit=1'} for c, v in res.items()}
@@ -63,14 +63,15 @@ if marker in s:
     s = s[:s.index(marker)]
 nagent = sum(1 for m in rows if m['name'].startswith('agent_'))
 s += marker + f'''
-{nagent} changes were produced by independent sub-agents in four rounds (each saw only one property's text
+{nagent} changes were produced by independent sub-agents in six rounds (each saw only one property's text
 and its own scratch worktree; later rounds were told which sites were already taken), 8 are the reverse
-patches of the repaired defects, 3 were written while testing a check. Every change was confirmed
+patches of the repaired defects, 4 were written while testing a check. Every change was confirmed
 independently (`tools/confirm_mutant.sh`: the unedited suite passes with it, the demonstration fails with
 it and passes without it) before it was kept. Several agents converged on the same line; such duplicates
-are kept because they were submitted under different properties. **Every kept change is now reported as a
-reproducing VIOLATION by at least the check of the property it was written for** (one, a mis-forwarded
-field method on Dual2Vec, only by the thorough tier). Changes that were missed on their first run led to
+are kept because they were submitted under different properties. **Every kept change but one is now reported
+as a reproducing VIOLATION by at least the check of the property it was written for** (one, a mis-forwarded
+field method on Dual2Vec, only by the thorough tier). The exception is agent_C12_f, a slip inside the
+float-absorption shortcut of the Jacobi rotation, which is outside the stated C12 bound (see its note). Changes that were missed on their first run led to
 a strengthening of the check; the notes say which. Raw outcomes in order: `seeded/results.log`.
 
 ''' + '\n'.join(lines) + '\n'
